@@ -22,8 +22,120 @@ SRC2 = {
     "clean": impl.HDR + "\nvoid\tft_nop(void)\n{\n}\n",
     "notice": impl.HDR + "\nchar\t*g_name;\n\nint\tmain(void)\n{\n\treturn (0);\n}\n",
     "erroneous": impl.HDR + "\nint\tmain(void)\n{\n\tint a;\n\n\ta = 0 ;\n\treturn (a);\n}\n",
-    "fatal": impl.HDR + "\nint\tmain(void)\n{\n\treturn (0));\n}\n",
+    "fatal": impl.HDR + "\nint\tmain(void)\n{\n\treturn (0);\n}\n)\n",
 }
+
+
+def class_of(res):
+    if res["kind"] == "fatal":
+        return "fatal"
+    if res["kind"] != "ok":
+        return res["kind"]
+    lv = [d[2] for d in res["diags"]]
+    return "erroneous" if "Error" in lv else ("notice" if lv else "clean")
+
+
+def alone(name, src, tmp):
+    """Verdict and diagnostics of one file analysed in a process of its own (nothing another file did can be seen)."""
+    d = tempfile.mkdtemp(prefix="alone_", dir=tmp)
+    with open(os.path.join(d, name), "w") as f:
+        f.write(src)
+    code, out, err, exc = impl.run_main_subprocess(["-f", "json", name], cwd=d)
+    shutil.rmtree(d, ignore_errors=True)
+    if exc is not None or code not in (0, 1):
+        return None
+    try:
+        x = json.loads(out)["files"][0]
+        return (x["status"], [(e["name"], e["level"], [(h["lineno"], h["column"]) for h in e["highlights"]]) for e in x["errors"]])
+    except (ValueError, KeyError, IndexError, TypeError):
+        return None     # a fatal file (plain text, not JSON)
+
+
+def order_corpus(rnd, tier):
+    """(name, source): the repository's own test files plus a few with comments and guards in the places where the checks
+    skip across white space, comments and line ends (state kept between files shows there first)."""
+    import glob
+    out = []
+    for p in sorted(glob.glob(os.path.join(common.REPO, "tests", "**", "*.[ch]"), recursive=True)):
+        try:
+            with open(p) as f:
+                src = f.read()
+        except (OSError, UnicodeDecodeError):
+            continue
+        if len(src) < 6000:
+            out.append((os.path.basename(p), src))
+    rnd.shuffle(out)
+    out = out[:40 if tier == "quick" else 400]
+    out.append(("guarded.h", impl.HDR + "\n#ifndef GUARDED_H\n# define GUARDED_H\n\nint\tf(void);\n\n#endif /* a */ /* b */\n"))
+    out.append(("guarded2.h", impl.HDR + "\n#ifndef GUARDED2_H\n# define GUARDED2_H\n\nint\tf(void);\n\n#endif\n"))
+    out.append(("cmt.c", impl.HDR + "\nint\tmain(void)\t/* a */ /* b */\n{\n\treturn (0);\n}\n"))
+    out.append(("cmt2.c", impl.HDR + "\nint /* a */\tmain(void)\n{\n\tint\ta; // x\n\n\ta = 0; /* b */\n\treturn (a);\n}\n"))
+    out.append(("cmt3.c", impl.HDR + "\nstruct s_a /* a */\n{\n\tint\ta; /* b */\n}; /* c */\n\ntypedef int\tt_i; // d\n"))
+    more = []
+    for name, src in out[:20]:
+        lines = src.split("\n")
+        for _ in range(3):
+            i = rnd.randrange(len(lines))
+            lines[i] += rnd.choice(["\t/* a */ /* b */", " // c", " /* d */", "\t\\"])
+        more.append(("p_" + name, "\n".join(lines)))
+    uniq = {}
+    for k, (name, src) in enumerate(out + more):
+        uniq["%03d_%s" % (k, name)] = src
+    return sorted(uniq.items())
+
+
+def check_orders(run, rnd, tier, tmp, files=None, orders=None):
+    """Every file's verdict and diagnostics in a run of many files, in several orders, against the same file analysed in a
+    process of its own."""
+    from concurrent.futures import ThreadPoolExecutor
+    found = False
+    files = files if files is not None else order_corpus(rnd, tier)
+    with ThreadPoolExecutor(12) as ex:
+        ref = dict(zip([n for n, _ in files], ex.map(lambda ns: alone(ns[0], ns[1], tmp), files)))
+    usable = [(n, s) for n, s in files if ref[n] is not None]
+    src_of = dict(usable)
+    if orders is None:
+        orders = []
+        names = [n for n, _ in usable]
+        for _ in range(4 if tier == "quick" else 40):
+            o = names[:]
+            rnd.shuffle(o)
+            orders.append(o)
+            orders.append(o[::-1])
+        heads = [n for n in names if n.endswith(".h")]
+        orders.append(heads + [n for n in names if not n.endswith(".h")])
+        orders.append([n for n in names if not n.endswith(".h")] + heads)
+    ncmp = 0
+    for o in orders:
+        o = [n for n in o if n in src_of]
+        d = tempfile.mkdtemp(prefix="order_", dir=tmp)
+        for n in o:
+            with open(os.path.join(d, n), "w") as f:
+                f.write(src_of[n])
+        code, out, err, exc = impl.run_main_subprocess(["-f", "json"] + o, cwd=d, limit=120.0)
+        shutil.rmtree(d, ignore_errors=True)
+        try:
+            js = json.loads(out)["files"]
+            got = [(os.path.basename(x["path"]), (x["status"], [(e["name"], e["level"], [(h["lineno"], h["column"]) for h in e["highlights"]])
+                                                               for e in x["errors"]])) for x in js]
+        except (ValueError, KeyError, TypeError):
+            got = None
+        data = {"order": o, "exit": code, "stderr": err[-800:]}
+        if got is None or [n for n, _ in got] != o:
+            found |= run.violation("order-run-broken", dict(data, stdout=out[-1500:], sources={n: src_of[n] for n in o[:6]}))
+            continue
+        diff = [(n, ref[n], g) for n, g in got if g != ref[n]]
+        ncmp += len(got)
+        want = 1 if any(ref[n][0] != "OK" for n in o) else 0
+        if diff:
+            n0 = diff[0][0]
+            k0 = o.index(n0)
+            found |= run.violation("order-dependence", dict(data, file=n0, alone=diff[0][1], in_run=diff[0][2], position=k0,
+                                                            sources={n: src_of[n] for n in o[:k0 + 1]}))
+        elif (code == 0) != (want == 0):
+            found |= run.violation("exit-status", dict(data, expected_exit=want))
+    run.count("files in many-file runs in shuffled orders vs the same file in a process of its own", ncmp, ncmp)
+    return found
 
 
 def enc_fins(e, fins):
@@ -138,7 +250,11 @@ def run(run, tier, seed, replay=None):
     tmp = tempfile.mkdtemp(prefix="nvc04_")
     found = False
     try:
-        if replay:
+        if replay and "order" in replay["data"]:
+            srcs = replay["data"]["sources"]
+            found |= check_orders(run, rnd, tier, tmp, files=sorted(srcs.items()), orders=[[n for n in replay["data"]["order"] if n in srcs]])
+            seqs = []
+        elif replay:
             seqs = [(replay["data"]["classes"], [a for a in replay["data"]["argv"] if a.startswith("-") or a in ("json", "humanized")], replay["data"].get("mode", "inproc"))]
         else:
             seqs = []
@@ -180,6 +296,13 @@ def run(run, tier, seed, replay=None):
             if any(f["res"]["kind"] not in ("ok", "fatal") for f in fins):
                 found |= run.violation("class-file-crashed", {"classes": sq, "res": [f["res"] for f in fins]})
                 continue
+            # the four classes of the quantifier are what they are called: a fatally unparsable file that is silently given
+            # a verdict (or a clean one that is not) makes every expectation below circular
+            wrong = [(f["base"], c, class_of(f["res"])) for f, c in zip(fins, sq) if class_of(f["res"]) != c]
+            if wrong:
+                found |= run.violation("class-membership", {"classes": sq, "wrong": wrong,
+                                                            "sources": {f["base"]: f["src"] for f in fins}})
+                continue
             nontrivial = 1 if len(set(sq)) > 1 or len(sq) == 0 else 0
             # explicit paths
             found |= check_sequence(run, drv, sq, [f["path"] for f in fins], fins, extra, mode, d)
@@ -198,6 +321,8 @@ def run(run, tier, seed, replay=None):
             if k < 400 and k % 97 == 5:
                 run.sample({"classes": sq, "argv": extra, "mode": mode})
             shutil.rmtree(d, ignore_errors=True)
+        if replay is None:
+            found |= check_orders(run, rnd, tier, tmp)
         # a broken proof / tie / correspondence and no failing input yet: look where exit arithmetic can still go wrong
         # (statuses are taken modulo 256 by the OS: many erroneous files in one run)
         if replay is None and not found and (not b.ok or run.deferred):
